@@ -729,6 +729,110 @@ def run_engine(ctx: Ctx, pid: str):
                                      "observed": {k: out.get(k) for k in ("status", "solution", "solutions", "objective")}}, no_input=True)
 
 
+# ------------------------------------------------------------------------------------------- budget sweep (C02)
+def sweep_instances(rng, big):
+    """Instances that need far more conflicts than any budget tried: (name, clauses, known_unsat)."""
+    inst = [(f"php{h + 1}_{h}", pigeonhole(h), True) for h in (5, 6, 7, 8, 9)]
+    for _ in range(5 if big else 3):
+        n = rng.randint(30, 60)
+        inst.append((f"3sat{n}", rand_kcnf(rng, n, int(4.3 * n) + rng.randint(-2, 2), 3), False))
+    for n in ((14, 18, 24, 30) if big else (14, 20, 26)):
+        inst.append((f"parity{n}", parity_chain(n, rng.randint(0, 1), rng, True), True))
+    return inst
+
+
+def sweep_budgets(rng, big):
+    """option sets: small max_conflicts values incl. consecutive runs k, k+1, k+2 (a value stepped over by the counter is then
+    hit), and small max_restarts with luby_factor 1..3"""
+    if big:
+        mcs = list(range(1, 61))
+    else:
+        mcs = set()
+        for _ in range(4):
+            k = rng.randint(1, 58)
+            mcs.update((k, k + 1, k + 2))
+        while len(mcs) < 20:
+            mcs.add(rng.randint(1, 60))
+        mcs = sorted(mcs)
+    opts = [{"max_conflicts": m, "luby_factor": rng.choice([1, 2, 3, 100])} for m in mcs]
+    for _ in range(12 if big else 5):
+        opts.append({"max_restarts": rng.randint(0, 6), "luby_factor": rng.randint(1, 3)})
+    return opts
+
+
+def judge_sweep(case, out, known_unsat):
+    """(a) returns in time, no exception; (b) a returned model satisfies the clauses (and none for a known-unsat family);
+    (c) INFEASIBLE is right by construction on php / parity (unjudged on random 3-SAT: beyond the truth table);
+    (d) MAX_ITER only when a recomputed budget is met."""
+    if out["outcome"] == "hang":
+        return "did not return within the time guard: the budget was ignored"
+    if out["outcome"] == "exc":
+        return f"raised {out['exc'][0]}: {out['exc'][1]}"
+    st = out["status"]
+    if st not in ("OPTIMAL", "INFEASIBLE", "MAX_ITER"):
+        return f"status {st} is none of OPTIMAL / INFEASIBLE / MAX_ITER"
+    for m in returned_models(out):
+        if known_unsat:
+            return f"reports a model for an unsatisfiable formula ({case['family']})"
+        if not satisfies_directly(m, case["clauses"], case["assumptions"]):
+            return "reports an assignment that falsifies a clause"
+    if st == "OPTIMAL" and not returned_models(out):
+        return "status OPTIMAL without a model"
+    if st == "MAX_ITER" and not budget_exhausted(case, out):
+        return "MAX_ITER although neither max_conflicts nor max_restarts is met (recomputed from the learn events)"
+    return None
+
+
+def run_sweep(ctx: Ctx):
+    """C02 'every call returns after work bounded by its budgets': hard instances x several small budgets."""
+    big = ctx.tier == "thorough"
+    cases, meta = [], []
+    for name, cl, ku in sweep_instances(ctx.rng, big):
+        for o in sweep_budgets(ctx.rng, big):
+            cases.append(mk(cl, [], "sweep-" + name, **o))
+            meta.append(ku)
+    outs = pmap(run_impl, cases)
+    retried = 0
+    for i, o in enumerate(outs):  # a 5 s expiry on a loaded machine is re-tried once with 20 s
+        if o["outcome"] == "hang" and retried < 2:
+            retried += 1
+            o2 = run_impl(cases[i], 20)
+            if o2["outcome"] != "hang":
+                ctx.count("slow_but_returned", f"sweep:{o2['time']}s")
+                outs[i] = o2
+    reported = set()
+    for case, out, ku in zip(cases, outs, meta):
+        ctx.evaluations += 1
+        fam = case["family"]
+        ctx.count("sweep_family", re.sub(r"\d+$", "", fam.split("_")[0]))
+        ctx.count("sweep_outcome", out["outcome"] if out["outcome"] != "ok" else out["status"])
+        ctx.count("trace_replay", "skipped-sweep(beyond RUP replay budget)")
+        if out["outcome"] == "ok" and out["status"] == "INFEASIBLE" and not ku:
+            ctx.count("sweep_outcome", "INFEASIBLE-unjudged(random 3-SAT)")
+        learns = sum(1 for e in out["trace"] if e[0] == "learn" and not e[2])
+        if learns >= 1:
+            ctx.nontriv(canon(case))
+        bad = judge_sweep(case, out, ku)
+        if not bad or fam in reported:
+            continue
+        reported.add(fam)
+        rep_case, rep_out = case, out
+        if out["outcome"] == "hang" and "max_restarts" not in {k for k, v in case["kw"].items() if v != DEFAULT_KW[k]}:
+            # minimise over the budget value: the smallest max_conflicts (same instance, same other options) that does not return
+            for m in range(1, case["kw"]["max_conflicts"]):
+                t = json.loads(json.dumps(case))
+                t["kw"]["max_conflicts"] = m
+                o2 = run_impl(t, 3)
+                if o2["outcome"] == "hang":
+                    rep_case, rep_out = t, o2
+                    break
+        ctx.violation(f"solve_sat on {fam} with {({k: v for k, v in rep_case['kw'].items() if v != DEFAULT_KW[k]})}: {judge_sweep(rep_case, rep_out, ku) or bad}",
+                      {"family": fam, "clauses": rep_case["clauses"], "assumptions": [], "kw": rep_case["kw"],
+                       "observed": {k: rep_out.get(k) for k in ("outcome", "status", "exc", "time")},
+                       "first_seen_with": case["kw"]})
+    ctx.extra["sweep_calls"] = len(cases)
+
+
 def replay_common(obj, pid):
     if "clauses" not in obj:
         print("replay names an unchecked obligation:", obj.get("unchecked") or obj.get("what"))
